@@ -53,6 +53,11 @@ func (t *TestCase) MarshalJSON() ([]byte, error) {
 		default:
 			v.Error = e.Error()
 		}
+		// A failed test always has the error field even if the (custom) message is empty,
+		// otherwise the entry could not be distinguished from a passed one
+		if v.Error == "" {
+			v.Error = "Assertion failed"
+		}
 	}
 	return json.Marshal(v)
 }
